@@ -61,6 +61,8 @@ func sweepCmd(args []string) {
 	repo := fs.String("repo", "/repo", "")
 	input := fs.Bool("input", false, "treat first []byte param as decoder input")
 	doReplay := fs.Bool("replay", false, "replay refuted safety obligations on the real code")
+	doReset := fs.Bool("reset", false, "C05 reset obligations")
+	doInit := fs.Bool("init", false, "C07 init ghost")
 	fs.Parse(args)
 	t0 := time.Now()
 	e := newEngine(*repo)
@@ -78,7 +80,7 @@ func sweepCmd(args []string) {
 		}
 	}
 	t1 := time.Now()
-	results := e.verifyAll(fns, func(f *ssa.Function) *FnConfig { return &FnConfig{InputData: *input, NoGlobal: *input} })
+	results := e.verifyAll(fns, func(f *ssa.Function) *FnConfig { return &FnConfig{InputData: *input, NoGlobal: *input, Reset: *doReset, TrackInit: *doInit} })
 	tot, proved, ref, unk, oos, clean := 0, 0, 0, 0, 0, 0
 	for _, r := range results {
 		if r.OutOfSub != "" {
